@@ -2,8 +2,9 @@
 from sched import *
 
 PROP = "C01"
-THEOREMS = []
+THEOREMS = [tuple(x) for x in json.load(open(os.path.join(VERIF, "lib", "pins", PROP + ".json")))]
 
 
 def main(tier, seed, replay=None):
-    return sched_check(PROP, THEOREMS, tier, seed, [monitor_c01, monitor_c04, monitor_c05, monitor_c06, monitor_c19, monitor_c18], replay=replay)
+    return sched_check(PROP, THEOREMS, tier, seed, [monitor_c01], extra_modules=["Model.All", "Proofs.SchedSpec", "Proofs.SchedInv", "Proofs.SchedLive", "Proofs.SchedRunThms"],
+                       replay=replay)
